@@ -10,7 +10,14 @@ def apply(F):
     for t, f in (('PublicKey', 'x_pk_bytes'), ('PrivateKey', 'x_sk_bytes'), ('KexResult', 'x_ss_bytes')):
         S = [r'impl Serializable for %s\b' % t]
         F.insert_in([], S[0], '    closed spec fn ser(&self) -> Bytes { %s(&self.0) }' % f)
-        F.contract(S, r'fn write_exact\b', attrs=['#[verifier::external_body]'], discharged_by='kani:write_exact_x25519')
+        nm = 'write_exact_%s_body' % t.lower()
+        F.hoist(S, r'fn write_exact\b', nm, t, trait='Serializable')
+        F.contract(S, r'fn write_exact\b', attrs=['#[verifier::external_body]'], discharged_by='N7 delegation to the verified %s (cross-checked by kani:write_exact_x25519)' % nm)
+        F.contract([], r'fn %s\b' % nm, clauses='''
+    requires old(buf)@.len() == 32,
+    ensures /*@C12*/ final(buf)@ == this.ser(),
+''')
+        F.wrap([], r'fn %s\b' % nm)
         F.wrap([], S[0])
     for t in ('PublicKey', 'PrivateKey'):
         D = [r'impl Deserializable for %s\b' % t]
